@@ -117,8 +117,11 @@ def run(repo: Repo, chk: Check, thorough: bool = False) -> None:
     sets = [n for n in mn.walk() if isinstance(n, ast.Assign) and any(isinstance(t, ast.Name) and t.id == sv for t in n.targets)]
     by_val: Dict[object, List[ast.Assign]] = {}
     for s in sets:
-        if isinstance(s.value, ast.Constant):
-            by_val.setdefault(s.value.value, []).append(s)
+        v0 = s.value
+        if isinstance(v0, ast.Name) and v0.id in mn.mod.assigns:      # a named status (`EXIT_PARSE_ERRORS = 2`)
+            v0 = mn.mod.assigns[v0.id]
+        if isinstance(v0, ast.Constant):
+            by_val.setdefault(v0.value, []).append(s)
     ok0 = 0 in by_val and all(cfgm.dominates(by_val[0][0], s, no_exc=True) for v, l in by_val.items() if v != 0 for s in l)
     chk.ob('R16.3', 'driver.main :: exit status starts at 0', ok0, 'exitcode = 0 first', mn.loc)
     twos = by_val.get(2, [])
